@@ -1492,6 +1492,17 @@ class Controller:
         '''
         self._send_hci_command_status(hci.HCI_ErrorCode.SUCCESS, command.op_code)
 
+        if self.link is None or self.link.find_classic_controller(command.bd_addr) is None:
+            # Nobody answers the page
+            self.send_hci_packet(
+                hci.HCI_Remote_Name_Request_Complete_Event(
+                    status=hci.HCI_ErrorCode.PAGE_TIMEOUT_ERROR,
+                    bd_addr=command.bd_addr,
+                    remote_name=b'',
+                )
+            )
+            return None
+
         self.send_lmp_packet(command.bd_addr, lmp.LmpNameReq(0))
 
         return None
